@@ -110,9 +110,16 @@ def handle_events(sol_tuple, events, consts, direction, is_terminal, attributes)
         verbose=False
     )
 
-    g = [ev_f[idx](t_root - (t_next - t_prev) * D.epsilon(roots[0].dtype) ** 0.5) for idx, t_root in enumerate(roots)]
+    def __probe_offset(t_root, width):
+        # signed distance of a probe from the root: a fraction of the step, but never below the spacing of the
+        # floats at the root - far from the origin (|t| >> |t_next - t_prev|) a probe would otherwise coincide with
+        # the root and the crossing would show no direction at all
+        return D.ar_numpy.sign(t_next - t_prev) * D.ar_numpy.maximum(D.ar_numpy.abs(t_next - t_prev) * width,
+                                                                     D.epsilon(roots[0].dtype) * D.ar_numpy.abs(t_root))
+
+    g = [ev_f[idx](t_root - __probe_offset(t_root, D.epsilon(roots[0].dtype) ** 0.5)) for idx, t_root in enumerate(roots)]
     g_cen = [ev_f[idx](t_root) for idx, t_root in enumerate(roots)]
-    g_new = [ev_f[idx](t_root + (t_next - t_prev) * D.epsilon(roots[0].dtype) ** 0.5) for idx, t_root in enumerate(roots)]
+    g_new = [ev_f[idx](t_root + __probe_offset(t_root, D.epsilon(roots[0].dtype) ** 0.5)) for idx, t_root in enumerate(roots)]
 
     g = D.ar_numpy.stack(g)
     g_cen = D.ar_numpy.stack(g_cen)
@@ -125,9 +132,9 @@ def handle_events(sol_tuple, events, consts, direction, is_terminal, attributes)
     down = ((g >= 0) & (g_new <= 0)) | ((g >= 0) & (g_cen <= 0)) | ((g_cen >= 0) & (g_new <= 0))
 
     for receptive_field in [1.0, 2.0, 3.0]:
-        g = [ev_f[idx](t_root - receptive_field * (t_next - t_prev) * D.epsilon(roots[0].dtype) ** 0.75) for idx, t_root in
+        g = [ev_f[idx](t_root - receptive_field * __probe_offset(t_root, D.epsilon(roots[0].dtype) ** 0.75)) for idx, t_root in
              enumerate(roots)]
-        g_new = [ev_f[idx](t_root + receptive_field * (t_next - t_prev) * D.epsilon(roots[0].dtype) ** 0.75) for idx, t_root in
+        g_new = [ev_f[idx](t_root + receptive_field * __probe_offset(t_root, D.epsilon(roots[0].dtype) ** 0.75)) for idx, t_root in
                  enumerate(roots)]
 
         g = D.ar_numpy.stack(g)
